@@ -25,6 +25,25 @@ Copies are examined as *cases* described by a JSON dictionary (so that every fai
                whole or for a selection of names given in non-file order.
 Each case is evaluated by `check_copy_case` / `check_db_case`, which return the clauses of the property that fail; an
 exception raised by the implementation inside a case is a failing clause, not a crash of the harness.
+
+Audit additions (classes of inputs inside the quantifier that the generators did not reach before):
+  spelling    the same option given as list / tuple / ndarray / view / read-only array / numpy scalar / int / bool (`SPELLED`), the
+              parameters of the query methods themselves (threshold, quantiles, statsdur: `MPARAMS`), every public entry point that
+              reaches `TimeSeries.get` (`EMETHODS`: positional get, TsDB.geta / getda / stats / stats_dataframe / to_dataframe /
+              create_common_time, the qats.app.funcs computations incl. the Gumbel fit and the export, the plot methods), series
+              built from int / float32 / strided / read-only / shared caller arrays (the constructor clause: `source_clauses`),
+              further ways of copying (`HOWS2`), database copies called positionally / with str, tuple, list selections / on files
+              named relative to the working directory;
+  boundaries  windows holding 0 / 1 / 2 samples or reversed, refused option values, series of 1 / 2 / 3 samples, constant / zero /
+              tied data, data scaled by 2^+-200 or on offsets of 2^40 / -1e15, time offsets, attributes None / empty / mutable;
+  histories   the series is changed between queries (in place, re-assigned, re-referenced, renamed: `MUTATIONS`, `HIST_MUT`) and a
+              copy taken afterwards must answer like its source; the caller writes to returned arrays and asks again; second copies,
+              copies of copies, a source modified after copying; series of a database changed in memory before it is copied;
+  references  the GUI computations are snapshotted before their first (sequential) run and repeated before the threads start;
+  during      an `Observer` looks at the stored state whenever a query enters one of the signal / statistics routines (a deterministic
+              stand-in for the other thread of the property's schedules);
+  crashes     the GUI part and the model-tag comparison can no longer raise out of `run`.
+Known-finding shapes (effective only with an entry of that id in known_findings.json): `is_alias_common_time`, `is_threshold_0d`.
 """
 import contextlib
 import copy as pycopy
@@ -44,7 +63,13 @@ from .. import core
 RULE = ("all 72 combinations of (window, resample none/step/array, taper, filter kind incl. none, smoothing) x uniform / non-uniform "
         "series x 12 query methods (each also with the stored arrays made read-only); boundary option values (no-op taper / "
         "smoothing / window / resampling / filter values, alone and combined) x 22 query methods as a history on one series; "
-        "4 GUI computations x real threads; "
+        "the same options in other spellings (list / tuple / ndarray / view / numpy scalars / int / bool) and refused values, parameters of the "
+        "query methods (threshold, quantiles, statsdur) x 48 entry points (TimeSeries methods, TsDB.geta/getda/stats/to_dataframe/..., "
+        "qats.app.funcs, plots) as histories with in-place changes of the series in between, on series built from int / float32 / strided / "
+        "read-only / shared arrays, of 1-3 samples, with constant / tied data, magnitudes 2^+-200 and large offsets; the stored state is "
+        "also observed during each query; "
+        "5 GUI computations x 3 settings: sequential twice, then real threads; "
+        "further copies: 13 ways of copying x sources changed before the copy x other array kinds / attribute values / lengths, second copies; "
         "series copies: 7 time grids x 3 date-time references x query histories ([], [dtg_time], random) x 5 ways of copying; "
         "database copies: file-backed (.ts .dat .pkl .h5, 1-2 files) with every kind of preloaded subset (none / some / all) "
         "+ in-memory series x copy / update x deep / shallow x all names / selection in non-file order; "
@@ -71,9 +96,20 @@ def snap(ts, skip=()):
                 attrs={k: freeze(v) for k, v in vars(ts).items() if k not in ("_t", "x") and k not in skip})
 
 
+def is_frame(v):
+    return type(v).__name__ in ("DataFrame", "Series") and hasattr(v, "to_numpy")
+
+
 def arrays_in(res):
     if isinstance(res, np.ndarray):
         return [res]
+    if is_frame(res):           # pandas: the blocks behind the columns and the index
+        out = [res.index.to_numpy()]
+        if type(res).__name__ == "DataFrame":
+            out += [res[c].to_numpy() for c in res.columns]
+        else:
+            out.append(res.to_numpy())
+        return [a for a in out if isinstance(a, np.ndarray)]
     if isinstance(res, (tuple, list)):
         return [a for r in res for a in arrays_in(r)]
     if isinstance(res, dict):
@@ -82,6 +118,8 @@ def arrays_in(res):
 
 
 def same(a, b):
+    if is_frame(a) or is_frame(b):
+        return is_frame(a) and is_frame(b) and list(a.index) == list(b.index) and bool(a.equals(b))
     if isinstance(a, np.ndarray) or isinstance(b, np.ndarray):
         if not (isinstance(a, np.ndarray) and isinstance(b, np.ndarray) and a.shape == b.shape):
             return False
@@ -150,7 +188,8 @@ def readonly_probe(ts, method, kw, r1):
 
 
 # ======================================================================================================================
-#  query cases: boundary values of the processing options (given, but possibly doing nothing)
+#  query cases: boundary values of the processing options (given, but possibly doing nothing), the same option spelled in
+#  other ways, every public entry point that reaches TimeSeries.get, series built from other kinds of arrays
 # ======================================================================================================================
 # option values as JSON; symbolic values are resolved against the series by `resolve_opts`
 BOUNDARY = dict(
@@ -161,22 +200,169 @@ BOUNDARY = dict(
     resample=["own-dt", "own-instants-list", "own-instants-array", "own-dt-float32", 0.4],
     filterargs=[["tp", [-1., 1.]], ["tp", [0., 1.]], ["tp", [0.1, 0.9]], ["lp", 0.95], ["hp", 1e-6], ["bp", 1e-6, 0.95], ["bs", 0.4, 0.41], ["lp", 0.2]],
 )
+# the same option spelled in another way {"v": value (symbolic values as above), "as": spelling}; also values the query refuses
+SPELLED = dict(
+    twin=[{"v": v, "as": a} for v in ("inner", "whole", "exact-ends") for a in ("list", "ndarray", "int", "npscalar")] +
+         [{"v": v, "as": "tuple"} for v in ("one-sample", "two-samples", "between-samples", "reversed", "after-end")],
+    resample=[{"v": "own-dt", "as": a} for a in ("f8", "f4", "int", "str")] + [{"v": 0.4, "as": "f8"}, {"v": 0.25, "as": "f4"}] +
+             [{"v": v, "as": a} for v in ("own-instants", "inner-grid") for a in ("ndarray", "list", "readonly", "view", "tuple", "int-array")] +
+             [{"v": "beyond-grid", "as": "ndarray"}],
+    filterargs=[{"v": ["lp", 0.2], "as": "list"}, {"v": ["bp", 0.05, 0.3], "as": "list"}, {"v": ["lp", 0.2], "as": "npscalar"},
+                {"v": ["hp", 1], "as": "tuple"}, {"v": ["tp", 0], "as": "tuple"}, {"v": ["tp", 0.5], "as": "list"},
+                {"v": ["xx", 0.2], "as": "tuple"}, {"v": ["lp"], "as": "tuple"}, {"v": ["bp", 0.1], "as": "list"}, {"v": ["lp", 0.2], "as": "ndarray"}],
+    window_len=[{"v": 5, "as": "np.int64"}, {"v": 3, "as": "np.int32"}, {"v": 1, "as": "bool"}, {"v": 5.0, "as": "np.float64"}],
+    taperfrac=[{"v": 0.1, "as": "f8"}, {"v": 0.1, "as": "f4"}, {"v": 0.25, "as": "f4"}, {"v": 1, "as": "bool"}],
+    window=["hamming", "bartlett", "rectangular", "nosuch"],
+)
+# parameters of the query methods themselves (used by the methods that have them, ignored by the others)
+MPARAMS = dict(
+    threshold=[{"v": "mean", "as": a} for a in ("float", "f8", "arr0d", "f4")] + [{"v": 0, "as": "int"}, {"v": 0, "as": "arr0d"}, {"v": "max", "as": "float"}],
+    quantiles=[{"v": [0.37, 0.57, 0.9], "as": a} for a in ("list", "ndarray")] + [{"v": [0., 1., 0.5], "as": "tuple"}, {"v": [0.9, 0.1], "as": "list"}],
+    statsdur=[3600, 10800., 1],
+)
 QMETHODS = METHODS + ["maxima_global", "minima_global", "maxima_thr0", "minima_thr0", "stats_minima", "filter", "resample",
                       "interpolate", "fit_weibull", "average_frequency"]
+# other public entry points that reach the same code (TsDB methods, the functions behind the GUI, plots, positional calls)
+EMETHODS = ["get_pos", "geta", "getda", "db.stats", "stats_dataframe", "to_dataframe", "create_common_time", "funcs.psd", "funcs.psd_norm",
+            "funcs.rfc", "funcs.rfc_nobins", "funcs.trace", "funcs.stats", "funcs.stats_min", "funcs.gumbel", "funcs.gumbel_min",
+            "funcs.export", "plot", "plot_psd", "plot_cycle_range", "plot_cycle_rangemean", "props", "iter", "psd_opts",
+            "moments_opts", "fit_weibull_lse"]
+SLOW = ("plot", "plot_psd", "plot_cycle_range", "plot_cycle_rangemean")
+ALLMETHODS = QMETHODS + EMETHODS
+TSPELL = ["f8", "i8", "i4", "f4", "view", "readonly", "shared"]     # "shared": time and data are views of one caller array
+XKIND = ["plain", "const", "zeros", "ties"]
+
+
+def spelled_array(a, how):
+    """the values of the float array a as the caller's array of another kind"""
+    if how in ("i8", "i4"):
+        return np.rint(a).astype(np.int64 if how == "i8" else np.int32)
+    if how == "f4":
+        return a.astype(np.float32)
+    if how == "view":
+        base = np.zeros(2 * a.size + 1)
+        base[1::2] = a
+        return base[1::2]
+    if how == "readonly":
+        b = a.copy()
+        b.setflags(write=False)
+        return b
+    return a.copy()
+
+
+def build_qseries2(spec):
+    """-> (series, (caller's time array, caller's data array)); the plain spec (uniform, n, seed) gives the series of `make_series`"""
+    from qats import TimeSeries
+    from datetime import datetime
+    rng = random.Random(spec["seed"])
+    n, uniform = spec["n"], spec["uniform"]
+    if uniform:
+        t = np.arange(n) * 0.5
+    else:
+        t = np.cumsum(np.array([rng.choice([0.25, 0.5, 0.75]) for _ in range(n)]))
+    x = np.sin(0.3 * t) + 0.5 * np.sin(1.1 * t + 1) + np.array([rng.uniform(-0.2, 0.2) for _ in range(n)])
+    ts_, xs_ = spec.get("tspell", "f8"), spec.get("xspell", "f8")
+    xk = spec.get("xkind", "plain")
+    if xk == "const":
+        x = np.full(n, 2.5)
+    elif xk == "zeros":
+        x = np.zeros(n)
+    elif xk == "ties":                  # few distinct levels: plateaus, equal peaks, samples on the mean
+        x = np.rint(2. * x) / 2.
+    if ts_ in ("i8", "i4"):
+        t = t * 4.                      # all instants are whole numbers
+    if xs_ in ("i8", "i4"):
+        x = np.rint(8. * x)
+    x = x * 2. ** spec.get("xpow", 0) + spec.get("xoff", 0.)
+    t = t + spec.get("toff", 0.)
+    if ts_ == "shared" or xs_ == "shared":      # one caller array holding both
+        both = np.empty((2, n))
+        both[0], both[1] = t, x
+        tsrc, xsrc = both[0, :], both[1, :]
+    else:
+        tsrc, xsrc = spelled_array(t, ts_), spelled_array(x, xs_)
+    ts = TimeSeries("s", tsrc, xsrc, parent="/some/file.ts", dtg_ref=datetime(2020, 1, 2, 3, 4, 5), kind="force", unit="kN")
+    return ts, (tsrc, xsrc)
 
 
 def build_qseries(spec):
-    return make_series(random.Random(spec["seed"]), spec["uniform"], n=spec["n"])
+    return build_qseries2(spec)[0]
+
+
+OWN_ORACLE = "the stored time and data arrays are the series' own (the constructor copies the caller's arrays)"
+
+
+def source_clauses(ts, src, src0, F):
+    """the caller's arrays a series was built from: not aliased by the stored arrays, untouched by whatever was asked of the series"""
+    for nm, a, a0 in (("time", src[0], src0[0]), ("data", src[1], src0[1])):
+        if np.shares_memory(a, ts._t) or np.shares_memory(a, ts.x):
+            F.append((OWN_ORACLE, "no shared memory", "the stored arrays share memory with the caller's %s array" % nm))
+        if a.tobytes() != a0:
+            F.append(("queries on a series leave the arrays it was built from unchanged", "unchanged", "the caller's %s array changed" % nm))
+
+
+def _twin_of(ts, v):
+    t = ts.t
+    n = t.size
+    t0, t1 = float(t[0]), float(t[-1])
+    k = n // 3
+    return {"whole": (t0 - 1., t1 + 1.), "beyond": (-1e12, 1e12), "exact-ends": (t0, t1),
+            "inner": (float(t[n // 5]), float(t[-(n // 5) - 1])),
+            "one-sample": (float(t[k]), float(t[k])), "two-samples": (float(t[k]), float(t[min(k + 1, n - 1)])),
+            "between-samples": (float(t[k]) + 0.01, float(t[k]) + 0.02), "reversed": (t1, t0), "after-end": (t1 + 1., t1 + 2.)}[v]
+
+
+def spell(ts, k, o):
+    """value of the option k described by {"v":, "as":}"""
+    v, how = o["v"], o["as"]
+    if k == "twin":
+        a, b = _twin_of(ts, v)
+        if how == "int":                # whole seconds around the window
+            a, b = int(np.floor(a)), int(np.ceil(b))
+        return {"list": [a, b], "ndarray": np.array([a, b]), "npscalar": (np.float64(a), np.float64(b))}.get(how, (a, b))
+    if k == "resample":
+        if v in ("own-instants", "inner-grid", "beyond-grid"):
+            if v == "own-instants":
+                g = np.array(ts.t)
+            elif v == "inner-grid":
+                g = np.linspace(float(ts.t[ts.n // 5]), float(ts.t[-(ts.n // 5) - 1]), 37)
+            else:
+                g = np.linspace(float(ts.t[0]) - 1., float(ts.t[-1]), 20)
+            if how == "list":
+                return [float(_) for _ in g]
+            if how == "tuple":
+                return tuple(float(_) for _ in g)
+            if how == "int-array":
+                return np.unique(np.ceil(g[:-1])).astype(np.int64)
+            return spelled_array(g, how)
+        d = float(ts.dt) if v == "own-dt" else float(v)
+        return {"f8": np.float64(d), "f4": np.float32(d), "int": int(max(1, round(d))) if np.isfinite(d) else 1, "str": "%r" % d}.get(how, d)
+    if k == "filterargs":
+        if how == "npscalar":
+            return (v[0],) + tuple(np.float64(_) for _ in v[1:])
+        return {"list": list(v), "ndarray": np.array(v, dtype=object)}.get(how, tuple(v))
+    if k == "window_len":
+        return {"np.int64": np.int64, "np.int32": np.int32, "bool": bool, "np.float64": np.float64}[how](v)
+    if k == "taperfrac":
+        return {"f8": np.float64, "f4": np.float32, "bool": bool}[how](v)
+    if k == "threshold":
+        th = {"mean": float(np.mean(ts.x)), "max": float(np.max(ts.x))}.get(v, v)
+        return {"float": float, "int": int, "f8": np.float64, "f4": np.float32, "arr0d": np.array}[how](th)
+    if k == "quantiles":
+        return {"list": list, "tuple": tuple, "ndarray": np.array}[how](v)
+    raise ValueError(k)
 
 
 def resolve_opts(ts, opts):
-    """JSON option description -> (keyword arguments of get(), the caller's resampling array or None)"""
+    """JSON option description -> (keyword arguments of get() [+ parameters of the query method], the caller's resampling array or None)"""
     kw, arr = {}, None
     for k, v in opts.items():
-        if k == "twin":
-            t0, t1 = float(ts.t[0]), float(ts.t[-1])
-            kw[k] = {"whole": (t0 - 1., t1 + 1.), "beyond": (-1e12, 1e12), "exact-ends": (t0, t1),
-                     "inner": (float(ts.t[ts.n // 5]), float(ts.t[-(ts.n // 5) - 1]))}[v]
+        if isinstance(v, dict) and "as" in v:
+            kw[k] = spell(ts, k, v)
+            if k == "resample" and isinstance(kw[k], np.ndarray):
+                arr = kw[k]
+        elif k == "twin":
+            kw[k] = _twin_of(ts, v)
         elif k == "resample":
             if v == "own-dt":
                 kw[k] = float(ts.dt)
@@ -196,36 +382,110 @@ def resolve_opts(ts, opts):
     return kw, arr
 
 
+def _getkw(kw):
+    return {k: v for k, v in kw.items() if k not in MPARAMS}
+
+
+def _db_of(ts, mate=False):
+    from qats import TimeSeries, TsDB
+    db = TsDB()
+    db.add(ts)
+    if mate:        # a second series on the same instants
+        db.add(TimeSeries("zz_mate", ts.t, 2. * ts.x, dtg_ref=ts.dtg_ref))
+    return db
+
+
 def qcall(ts, method, kw):
     """the query `method` with the processing options kw"""
+    mp = {k: v for k, v in kw.items() if k in MPARAMS}
+    kw = _getkw(kw)
+    thr = {"threshold": mp["threshold"]} if "threshold" in mp else {}
     if method in METHODS:
+        if method in ("maxima", "minima") and thr:
+            return getattr(ts, method)(rettime=True, local=True, **thr, **kw)
+        if method == "stats" and mp:
+            return ts.stats(include_sample=True, **{k: v for k, v in mp.items() if k != "threshold"}, **kw)
         return call(ts, method, kw)
     if method == "maxima_global":
-        return ts.maxima(rettime=True, **kw)
+        return ts.maxima(rettime=True, **thr, **kw)
     if method == "minima_global":
-        return ts.minima(rettime=True, **kw)
+        return ts.minima(rettime=True, **thr, **kw)
     if method == "maxima_thr0":
         return ts.maxima(rettime=True, local=True, threshold=0., **kw)
     if method == "minima_thr0":
         return ts.minima(rettime=True, local=True, threshold=0., **kw)
     if method == "stats_minima":
-        return ts.stats(is_minima=True, include_sample=True, **kw)
+        return ts.stats(is_minima=True, include_sample=True, **{k: v for k, v in mp.items() if k != "threshold"}, **kw)
     if method == "average_frequency":       # properties: no options
         return (ts.average_frequency, ts.average_period)
-    if method == "fit_weibull":
-        w = ts.fit_weibull(twin=kw.get("twin"))
+    if method in ("fit_weibull", "fit_weibull_lse"):
+        w = ts.fit_weibull(twin=kw.get("twin"), **({} if method == "fit_weibull" else {"method": "lse"}))
         return (w.loc, w.scale, w.shape)
     if method == "filter":                  # filter(type, freq, twin, taperfrac)
         fa = kw.get("filterargs", ("lp", 0.2))
         return ts.filter(fa[0], fa[1] if len(fa) == 2 else tuple(fa[1:]), twin=kw.get("twin"), taperfrac=kw.get("taperfrac"))
     if method == "resample":
         r = kw.get("resample", float(ts.dt))
-        if isinstance(r, (list, np.ndarray)):
+        if isinstance(r, (list, tuple, np.ndarray)):
             return ts.resample(t=np.asarray(r))
         return ts.resample(dt=r)
     if method == "interpolate":
         r = kw.get("resample")
-        return ts.interpolate(np.asarray(r) if isinstance(r, (list, np.ndarray)) else ts.t)
+        return ts.interpolate(np.asarray(r) if isinstance(r, (list, tuple, np.ndarray)) else ts.t)
+    # ---- other entry points ---------------------------------------------------------------------------------------------------
+    if method == "get_pos":                 # everything positional
+        return ts.get(kw.get("twin"), kw.get("resample"), kw.get("window_len"), kw.get("filterargs"), kw.get("window", "rectangular"),
+                      kw.get("taperfrac"))
+    if method == "geta":
+        return _db_of(ts).geta(name=ts.name, **kw)
+    if method == "getda":
+        return _db_of(ts, mate=True).getda(**kw)
+    if method == "db.stats":
+        return _db_of(ts, mate=True).stats(**{k: v for k, v in mp.items() if k == "statsdur"}, **kw)
+    if method == "stats_dataframe":
+        return _db_of(ts).stats_dataframe(**kw)
+    if method == "to_dataframe":
+        return _db_of(ts, mate=True).to_dataframe(**kw)
+    if method == "create_common_time":
+        return _db_of(ts, mate=True).create_common_time(twin=kw.get("twin"))
+    if method.startswith("funcs."):
+        from qats.app import funcs
+        cont = {"first": ts, "again": ts}          # the GUI hands the workers a container of series
+        tw, fa = kw.get("twin"), kw.get("filterargs")
+        f = method[6:]
+        if f in ("psd", "psd_norm"):
+            return funcs.calculate_psd(cont, tw, fa, 64, f == "psd_norm")
+        if f in ("rfc", "rfc_nobins"):
+            return funcs.calculate_rfc(cont, tw, fa, 16 if f == "rfc" else None)
+        if f == "trace":
+            return funcs.calculate_trace(cont, tw, fa)
+        if f in ("stats", "stats_min"):
+            return funcs.calculate_stats(cont, tw, fa, f == "stats_min")
+        if f in ("gumbel", "gumbel_min"):
+            return funcs.calculate_gumbel_fit(cont, tw, fa, f == "gumbel_min")
+        if f == "export":
+            root = tempfile.mkdtemp(prefix="qv10e_")
+            try:
+                quiet(funcs.export_to_file, os.path.join(root, "out.ts"), _db_of(ts), [ts.name], tw, fa)
+                return sorted(os.listdir(root))
+            finally:
+                shutil.rmtree(root, ignore_errors=True)
+    if method in SLOW:
+        import matplotlib.pyplot as plt
+        k2 = {k: v for k, v in kw.items() if not (method == "plot_psd" and k == "window_len")}
+        try:
+            return getattr(ts, method)(show=False, **k2)
+        finally:
+            plt.close("all")
+    if method == "props":
+        return tuple(getattr(ts, p) for p in ("n", "start", "end", "dt", "duration", "is_constant_dt", "dtg_start", "dtg_end", "fullname"))
+    if method == "iter":
+        return list(ts)
+    if method == "psd_opts":
+        k2 = {k: v for k, v in kw.items() if k != "window_len"}
+        return ts.psd(nperseg=32, noverlap=0, detrend=False, nfft=64, normalize=True, **k2)
+    if method == "moments_opts":
+        return (ts.kurtosis(fisher=True, bias=True, **kw), ts.skew(bias=True, **kw))
     raise ValueError(method)
 
 
@@ -235,24 +495,79 @@ def what_changed(before, after):
            sorted(set(after["attrs"]) - set(before["attrs"]))
 
 
-def query_clauses(ts, method, opts):
+# ---- an observer *during* a query -------------------------------------------------------------------------------------------------
+# Another thread can look at the series at any moment of a query. The moments at which a query hands its working arrays to the
+# signal / statistics routines are observed deterministically: the functions qats.ts calls out to are wrapped (module attributes,
+# restored afterwards) and the stored state is compared when they are entered.
+OBS_NAMES = ["count_cycles", "average_frequency", "bandblock", "bandpass", "find_maxima", "highpass", "lowpass", "psd", "smooth", "taper",
+             "thresholdpass", "pwm", "weibull2gumbel", "interp1d", "kurtosis", "skew", "tstd"]
+OBS_ORACLE = ("queries give the same answer when run concurrently on the same series: the stored time, data and attributes are "
+              "unchanged at every moment of a query (looked at whenever the query enters a signal / statistics routine)")
+
+
+def light(s):
+    return (id(s._t), id(s.x), s._t.tobytes(), s.x.tobytes(), s.name, repr(s.kind), repr(s.unit), s.parent, s._dtg_ref)
+
+
+class Observer:
+    def __init__(self, series):
+        self.series, self.seen = list(series), None
+
+    def __enter__(self):
+        import qats.ts as m
+        self.m, self.orig = m, {}
+        self.ref = [light(s) for s in self.series]
+        for nm in OBS_NAMES:
+            f = getattr(m, nm, None)
+            if f is not None:
+                self.orig[nm] = f
+                setattr(m, nm, self._wrap(nm, f))
+        return self
+
+    def _wrap(self, nm, f):
+        def g(*a, **k):
+            if self.seen is None:
+                for s, r in zip(self.series, self.ref):
+                    now = light(s)
+                    if now != r:
+                        what = [w for w, p, q in zip(("time array object", "data array object", "time", "data", "name", "kind", "unit",
+                                                      "parent", "dtg_ref"), now, r) if p != q]
+                        self.seen = "%s differ(s) from the stored state when `%s` is entered" % (", ".join(what), nm)
+            return f(*a, **k)
+        return g
+
+    def __exit__(self, *exc):
+        for nm, f in self.orig.items():
+            setattr(self.m, nm, f)
+        return False
+
+
+def query_clauses(ts, method, opts, vs_copy=False):
     """-> list of failing clauses (oracle, expected, observed) of one query on the series object ts"""
     F = []
     kw, arr = resolve_opts(ts, opts)
+    watch = [(k, v, pycopy.deepcopy(v)) for k, v in kw.items() if isinstance(v, (list, np.ndarray))]
     arr0 = None if arr is None else arr.copy()
     lst0 = list(kw["resample"]) if isinstance(kw.get("resample"), list) else None
     before = snap(ts)
+    ob = Observer([ts])
     try:
-        r1 = qcall(ts, method, kw)
+        with ob:
+            r1 = qcall(ts, method, kw)
         mid = snap(ts)          # (two in-place sign flips cancel: look after the first call as well)
+        argmid = [(k, v0, pycopy.deepcopy(v)) for k, v, v0 in watch if not same(v, v0)]
         r2 = qcall(ts, method, kw)
     except Exception as e:      # a query may refuse its options; that is not a matter of this property - but it must not leave traces
         after = snap(ts)
         if after != before:
             F.append(("a query leaves the stored time, data and attributes bit-for-bit unchanged (also when it raises)", "unchanged",
                       "%s changed after %s" % (what_changed(before, after), type(e).__name__)))
+        if ob.seen:
+            F.append((OBS_ORACLE, "unchanged during the call", ob.seen))
         return F
     after = snap(ts)
+    if ob.seen:
+        F.append((OBS_ORACLE, "unchanged during the call", ob.seen))
     if mid != before:
         F.append(("a query leaves the stored time, data and attributes bit-for-bit unchanged", "unchanged", what_changed(before, mid)))
     elif after != before:
@@ -261,6 +576,8 @@ def query_clauses(ts, method, opts):
         F.append(("a query does not modify the caller's resampling array", "unchanged", "changed"))
     if not same(r1, r2):
         F.append(("a repeated query gives the same answer", "equal", "different"))
+    for k, v0, v in (argmid or [(k, v0, v) for k, v, v0 in watch if not same(v, v0)]):
+        F.append((ARG_ORACLE, "argument `%s` unchanged" % k, "changed from %.60r to %.60r" % (v0, v)))
     obs = readonly_probe_q(ts, method, kw, r1)
     if obs is not None:
         F.append((RO_ORACLE, "same answer, no write", obs))
@@ -269,14 +586,37 @@ def query_clauses(ts, method, opts):
             F.append(("returned arrays do not alias the stored ones", "no shared memory",
                       "a returned array shares memory with the stored %s" % ("data" if np.shares_memory(a, ts.x) else "time")))
             break
+    try:
+        r1c = pycopy.deepcopy(r1)
+    except Exception:
+        r1c = None
     # the caller may do anything with what a query returned
+    mine = [v for _, v, _ in watch if isinstance(v, np.ndarray)]
     for a in arrays_in(r1):
-        if a is not arr and a.flags.writeable and a.dtype.kind == "f" and a.size:
+        if not any(a is v or np.shares_memory(a, v) for v in mine) and a.flags.writeable and a.dtype.kind == "f" and a.size:
             a *= -1.
             a += 1.
     if snap(ts) != before and after == before:
         F.append(("returned arrays do not alias the stored ones (writing to a returned array leaves the series unchanged)",
                   "unchanged", what_changed(before, snap(ts))))
+    if r1c is not None and not F:
+        try:
+            r4 = qcall(ts, method, kw)
+            if not same(r4, r1c):
+                F.append(("a repeated query gives the same answer (after the caller has written to the arrays the first one returned)",
+                          "equal", "different"))
+        except Exception as e:
+            F.append(("a repeated query gives the same answer (after the caller has written to the arrays the first one returned)",
+                      "equal", "raised %s: %s" % (type(e).__name__, str(e)[:120])))
+    if vs_copy and r1c is not None and not F:
+        try:
+            c = ts.copy()
+            if not same(qcall(c, method, kw), r1c):
+                F.append(("a copy equals its source in every attribute and array (the same query gives the same answer on both)",
+                          "equal answers", "the query answers differently on a copy taken now"))
+        except Exception as e:
+            F.append(("a copy equals its source in every attribute and array (the same query gives the same answer on both)",
+                      "equal answers", "raised %s: %s" % (type(e).__name__, str(e)[:120])))
     return F
 
 
@@ -296,64 +636,187 @@ def readonly_probe_q(ts, method, kw, r1):
     return None
 
 
+ARG_ORACLE = "a repeated query gives the same answer: a query does not modify the objects passed as its arguments"
+
+
+def is_alias_common_time(f):
+    """known-finding shape: TsDB.create_common_time() without a window hands out the stored time array of the first series"""
+    i = f.get("input") or {}
+    return i.get("kind") == "query" and i.get("method") == "create_common_time" and "twin" not in (i.get("opts") or {}) and \
+        str(f.get("oracle", "")).startswith("returned arrays do not alias the stored ones")
+
+
+def is_threshold_0d(f):
+    """known-finding shape: minima(threshold=<0-d ndarray>) flips the sign of the caller's threshold array in place"""
+    i = f.get("input") or {}
+    th = (i.get("opts") or {}).get("threshold")
+    return i.get("kind") == "query" and "minima" in str(i.get("method")) and isinstance(th, dict) and th.get("as") == "arr0d" and \
+        str(f.get("oracle", "")).startswith(("a repeated query gives the same answer", "a copy equals its source", "queries give the same answer"))
+
+
+MUTATIONS = ["x_inplace", "x_scale", "x_rebind", "set_dtg_ref", "set_dtg_ref_none", "attrs"]
+
+
+def apply_mutation(ts, o):
+    """what a user may do to a series between two queries (not a query: the stored state changes, and the answers with it)"""
+    from datetime import datetime
+    op = o["op"]
+    if op == "x_inplace":
+        ts.x[o.get("k", 0) % ts.n] += 1.5
+    elif op == "x_scale":
+        ts.x *= -2.
+    elif op == "x_rebind":
+        ts.x = np.array(ts.x[::-1])
+    elif op == "set_dtg_ref":
+        ts.set_dtg_ref(datetime(2020, 1, 2, 3, 0, 0, 250000))
+    elif op == "set_dtg_ref_none":
+        ts.set_dtg_ref()
+    elif op == "attrs":
+        ts.kind, ts.unit, ts.name = "moment", "kNm", "s2"
+    else:
+        raise ValueError(op)
+
+
 def check_query_case(inp):
-    """kind="query": a fresh series, the queries of the history (answers discarded), then the clauses for the last query"""
-    ts = build_qseries(inp["series"])
+    """kind="query": a fresh series, the steps of the history (answers discarded), then the clauses for the last query"""
+    ts, src = build_qseries2(inp["series"])
+    src0 = (src[0].tobytes(), src[1].tobytes())
     for m, o in inp.get("history", []):
         try:
-            qcall(ts, m, resolve_opts(ts, o)[0])
+            if m == "!mutate":
+                apply_mutation(ts, o)
+            else:
+                qcall(ts, m, resolve_opts(ts, o)[0])
         except Exception:
             pass
-    return query_clauses(ts, inp["method"], inp["opts"])
+    F = query_clauses(ts, inp["method"], inp["opts"], vs_copy=inp.get("vs_copy", False))
+    source_clauses(ts, src, src0, F)
+    return F
 
 
-def gen_query_cases(rng, quick):
-    """-> list of (method, opts): every boundary value alone x every method, then random combinations"""
-    singles = [{k: v} for k, vs in BOUNDARY.items() if k != "window" for v in vs]
-    singles += [dict(window_len=2, window="hanning"), dict(window_len=1, window="blackman"), dict(taperfrac=0., window_len=1),
-                dict(taperfrac=1., window_len=2), dict(taperfrac=0, window_len=0)]
+def gen_query_cases(rng, quick, spelled=False):
+    """-> list of (method, opts): every boundary value alone x every method, then random combinations; ("!mutate", {...}) is a change of
+    the series between two queries. With spelled=True: the other spellings, the other entry points, the methods' own parameters."""
     out = []
+    if not spelled:
+        singles = [{k: v} for k, vs in BOUNDARY.items() if k != "window" for v in vs]
+        singles += [dict(window_len=2, window="hanning"), dict(window_len=1, window="blackman"), dict(taperfrac=0., window_len=1),
+                    dict(taperfrac=1., window_len=2), dict(taperfrac=0, window_len=0)]
+        for o in singles:
+            ms = QMETHODS if not quick else ["get", "minima"] + rng.sample(QMETHODS, 5)
+            out += [(m, o) for m in ms]
+        for _ in range(150 if quick else 3000):
+            ks = rng.sample(sorted(BOUNDARY), rng.randint(2, 4))
+            o = {k: rng.choice(BOUNDARY[k]) for k in sorted(ks)}
+            if "twin" in o and o.get("resample") == "own-instants-array":
+                del o["twin"]            # refused by get (assertion)
+            out.append((rng.choice(QMETHODS), o))
+        return out
+    fast = [m for m in ALLMETHODS if m not in SLOW]
+    singles = [{k: v} for k, vs in SPELLED.items() if k != "window" for v in vs]
+    singles += [dict(window_len=5, window=w) for w in SPELLED["window"]]
     for o in singles:
-        ms = QMETHODS if not quick else ["get", "minima"] + rng.sample(QMETHODS, 5)
+        ms = ["get", "minima"] + rng.sample(fast, 2 if quick else 8)
         out += [(m, o) for m in ms]
-    for _ in range(150 if quick else 3000):
-        ks = rng.sample(sorted(BOUNDARY), rng.randint(2, 4))
-        o = {k: rng.choice(BOUNDARY[k]) for k in sorted(ks)}
-        if "twin" in o and o.get("resample") == "own-instants-array":
-            del o["twin"]            # refused by get (assertion)
-        out.append((rng.choice(QMETHODS), o))
+    for k, vs in MPARAMS.items():
+        for v in vs:
+            ms = {"threshold": ["maxima", "minima", "maxima_global", "minima_global"], "quantiles": ["stats", "stats_minima"],
+                  "statsdur": ["stats", "db.stats"]}[k]
+            out += [(m, {k: v}) for m in ms]
+    for m in EMETHODS:                                      # every entry point: plain, and with options
+        out.append((m, {}))
+        for _ in range(2 if quick else 10):
+            pools = {k: BOUNDARY[k] + SPELLED[k] for k in BOUNDARY}
+            ks = rng.sample(sorted(pools), rng.randint(1, 3))
+            out.append((m, {k: rng.choice(pools[k]) for k in sorted(ks)}))
+    for _ in range(120 if quick else 2500):
+        pools = {k: BOUNDARY[k] + SPELLED[k] for k in BOUNDARY}
+        pools.update(MPARAMS)
+        ks = rng.sample(sorted(pools), rng.randint(1, 4))
+        out.append((rng.choice(fast if rng.random() < 0.97 else list(SLOW)), {k: rng.choice(pools[k]) for k in sorted(ks)}))
+    rng.shuffle(out)
+    k = 0
+    while k < len(out):                                     # the series changes now and then
+        k += rng.randint(8, 40)
+        out.insert(k, ("!mutate", dict(op=rng.choice(MUTATIONS), k=rng.randrange(1000))))
     return out
+
+
+def gen_qspecs(rng, quick):
+    """series descriptions: the two plain ones, then series built from other kinds of arrays / of other magnitudes / very short ones"""
+    specs = [(dict(uniform=u, n=rng.choice([200, 301]), seed=rng.randrange(10 ** 6)), False) for u in (True, False)]
+    specs += [(dict(uniform=u, n=rng.choice([200, 301]), seed=rng.randrange(10 ** 6)), True) for u in (True, False)]
+    for i in range(4 if quick else 24):
+        sp = dict(uniform=rng.random() < 0.6, n=rng.choice([1, 2, 3, 5, 64, 200]) if i % 2 else rng.choice([64, 200]),
+                  seed=rng.randrange(10 ** 6), tspell=rng.choice(TSPELL), xspell=rng.choice(TSPELL), xkind=rng.choice(XKIND))
+        if rng.random() < 0.5:
+            sp["xpow"] = rng.choice([-200, 200, 40])
+        if rng.random() < 0.3:
+            sp["xoff"] = rng.choice([2. ** 40, -1e15, 1e6])
+        if rng.random() < 0.3:
+            sp["toff"] = rng.choice([2. ** 30, -1000., 86400. * 365])
+        specs.append((sp, True))
+    return specs
 
 
 def run_query_cases(chk):
     rng = chk.rng
-    for uniform in (True, False):
-        spec = dict(uniform=uniform, n=rng.choice([200, 301]), seed=rng.randrange(10 ** 6))
-        ts, hist = build_qseries(spec), []
+    for si, (spec, spelled) in enumerate(gen_qspecs(rng, chk.quick)):
+        try:
+            ts, src = build_qseries2(spec)
+        except Exception as e:
+            chk.fail("building a series from the caller's arrays completes without an exception", dict(kind="query", series=spec, history=[],
+                     method="get", opts={}), "no exception", repr(e)[:300])
+            continue
+        src0 = (src[0].tobytes(), src[1].tobytes())
+        hist = []
         ref = snap(ts)
-        for m, o in gen_query_cases(rng, chk.quick):
+        steps = gen_query_cases(rng, chk.quick, spelled)
+        if si >= 4:                     # the special series: a part of the steps each
+            steps = steps[:150 if chk.quick else 600]
+        chk.dist("series:t=%s/x=%s/%s/n=%s" % (spec.get("tspell", "f8"), spec.get("xspell", "f8"), spec.get("xkind", "plain"),
+                                               "1-5" if spec["n"] <= 5 else "long"))
+        fresh = True
+        for m, o in steps:
+            if m == "!mutate":
+                try:
+                    apply_mutation(ts, o)
+                except Exception:
+                    pass
+                hist.append([m, o])
+                ref, fresh = snap(ts), True
+                chk.dist("mutation:" + o["op"])
+                continue
+            vs_copy = fresh or rng.random() < 0.1
+            fresh = False
             chk.count("query-boundary")
             chk.dist("method:" + m)
             for k in o:
                 chk.dist("boundary-option:" + k)
-            chk.nontriv(repr((uniform, m, o)))
+            chk.nontriv(repr((spec, m, o)))
+            F = []
             try:
-                F = query_clauses(ts, m, o)
+                F = query_clauses(ts, m, o, vs_copy=vs_copy)
                 if not F and snap(ts) != ref:
                     F = [("a query leaves the stored time, data and attributes bit-for-bit unchanged", "unchanged", what_changed(ref, snap(ts)))]
+                source_clauses(ts, src, src0, F)
             except Exception as e:
-                F = [("evaluating a query completes without an exception of the harness", "no exception", repr(e)[:300])]
+                tb = traceback.extract_tb(e.__traceback__)
+                F.append(("evaluating a query completes without an exception of the harness", "no exception",
+                          dict(exception=repr(e)[:300], where=["%s:%d" % (os.path.basename(fr.filename), fr.lineno) for fr in tb[-3:]])))
             if F:
-                inp = dict(kind="query", series=spec, history=[], method=m, opts=o)
+                inp = dict(kind="query", series=spec, history=[], method=m, opts=o, vs_copy=vs_copy)
                 try:
                     alone = check_query_case(inp)
                 except Exception:
                     alone = []
-                if not alone:           # needs the queries made before on the same object
+                if not alone:           # needs the steps made before on the same object
                     inp["history"] = list(hist)
                 for oracle, expected, observed in F:
                     chk.fail(oracle, inp, expected, observed)
-                ts, hist = build_qseries(spec), []         # continue on an unspoilt series
+                ts, src = build_qseries2(spec)              # continue on an unspoilt series
+                src0 = (src[0].tobytes(), src[1].tobytes())
+                hist, ref, fresh = [], snap(ts), True
             else:
                 hist.append([m, o])
 
@@ -364,8 +827,16 @@ def run_query_cases(chk):
 GRIDS = ["half", "nonuni", "third", "accum", "submicro", "random", "datetime"]
 DTGS = ["none", "sec", "usec"]
 HOWS = ["copy()", "copy.copy", "copy(newname)", "TsDB.copy", "TsDB.update"]
+# further ways of obtaining a copy (same clauses): positional new name, the deep copy of the standard library, a copy of a copy,
+# the database methods with the name given as a string / in a list / positionally, a series constructed from the source's arrays
+HOWS2 = ["copy('other')", "copy.deepcopy", "copy().copy()", "TsDB.copy(names=str)", "TsDB.copy([name], False)", "TsDB.update(names=[name])",
+         "TsDB.copy().copy()", "constructor"]
 HIST_OPS = ["dtg_time", "dtg_start", "dtg_end", "get", "get_twin", "get_resample", "get_filter", "stats", "maxima", "minima",
             "psd", "rfc", "mean", "dt", "is_constant_dt", "data"]
+# changes of the source before the copy is taken (not queries: the copy must equal the source as it is now)
+HIST_MUT = ["!x_inplace", "!x_scale", "!x_rebind", "!set_dtg_ref", "!set_dtg_ref_none", "!attrs"]
+TKINDS = ["f8", "i8", "f4", "view", "readonly", "dt64"]       # kind of array the time / data of the source was built from
+ATTRS = ["plain", "none", "empty", "mutable", "dt64ref"]      # name / kind / unit / parent / dtg_ref of other sorts
 FORMATS = [".ts", ".dat", ".pkl", ".h5"]
 # public read-only views of a series; a copy must show the same values as its source
 PROPS = ["name", "kind", "unit", "parent", "dtg_ref", "n", "start", "end", "dt", "duration", "dtg_start", "dtg_end", "fullname",
@@ -405,13 +876,39 @@ def build_series(spec):
         raise ValueError(g)
     k = np.arange(n)
     x = np.sin(0.3 * k) + 0.5 * np.sin(1.1 * k + 1) + np.array([r.uniform(-0.2, 0.2) for _ in range(n)]) + 5.
-    return TimeSeries(spec.get("name", "s"), t, x, parent=spec.get("parent", "/some/file.ts"), dtg_ref=ref, kind="force", unit="kN")
+    kind, unit, parent = "force", "kN", spec.get("parent", "/some/file.ts")
+    # ---- optional: other magnitudes, other kinds of source arrays, other sorts of attribute values
+    x = x * 2. ** spec.get("xpow", 0) + spec.get("xoff", 0.)
+    tk, xk = spec.get("tkind", "f8"), spec.get("xkind", "f8")
+    if g != "datetime":
+        t = t + spec.get("toff", 0.)
+        if tk == "dt64" and ref is not None:
+            t = np.array([np.datetime64(ref) + np.timedelta64(int(round(v * 1e6)), "us") for v in t])
+        elif tk in ("i8", "i4"):
+            t = spelled_array(np.rint(t * 20.), tk)
+        elif tk != "dt64":
+            t = spelled_array(t, tk)
+    elif tk == "dt64":
+        t = t.astype("datetime64[us]")
+    x = spelled_array(np.rint(x * 8.) if xk in ("i8", "i4") else x, xk if xk != "dt64" else "f8")
+    a = spec.get("attrs", "plain")
+    if a == "none":
+        kind, unit, parent = None, None, None
+    elif a == "empty":
+        kind, unit, parent = "", "", ""
+    elif a == "mutable":            # attribute values that are themselves mutable objects
+        kind, unit = ["force", "axial"], {"symbol": "kN", "factor": 1000.}
+    elif a == "dt64ref" and ref is not None:
+        ref = np.datetime64(ref)
+    return TimeSeries(spec.get("name", "s"), t, x, parent=parent, dtg_ref=ref, kind=kind, unit=unit)
 
 
 def apply_hist(ts, op):
     """one pure query of the history; the answer is discarded"""
     t = ts.t
     n = t.size
+    if op.startswith("!"):
+        return apply_mutation(ts, dict(op=op[1:], k=3))
     if op in ("dtg_time", "dtg_start", "dtg_end", "dt", "is_constant_dt", "data"):
         return getattr(ts, op)
     if op == "get":
@@ -441,17 +938,23 @@ def apply_hist(ts, op):
 def run_history(ts, ops, F, inp_note=""):
     """apply the queries; stored time / data / attributes (apart from the date-time cache) must stay bit-for-bit the same"""
     before = snap(ts, skip=CACHE)
-    raised = []
+    raised, changed = [], []
     for op in ops:
+        if op.startswith("!"):      # a change made by the user: what follows is compared with the state after it
+            after = snap(ts, skip=CACHE)
+            if after != before:
+                changed += what_changed(before, after)
         try:
             apply_hist(ts, op)
         except Exception as e:      # a query may refuse its options; that is not a matter of this property
             raised.append("%s: %s" % (op, type(e).__name__))
+        if op.startswith("!"):
+            before = snap(ts, skip=CACHE)
     after = snap(ts, skip=CACHE)
     if after != before:
-        what = [k for k in ("t", "x", "tid", "xid") if after[k] != before[k]] + \
-               [k for k in before["attrs"] if after["attrs"].get(k) != before["attrs"][k]]
-        F.append(("a sequence of queries leaves the stored time, data and attributes bit-for-bit unchanged" + inp_note, "unchanged", what))
+        changed += what_changed(before, after)
+    if changed:
+        F.append(("a sequence of queries leaves the stored time, data and attributes bit-for-bit unchanged" + inp_note, "unchanged", changed))
     return raised
 
 
@@ -541,32 +1044,68 @@ def mutate_and_watch(a, b, F, tag):
 
 def check_copy_case(inp):
     """-> list of failing clauses (oracle, expected, observed) for a kind="copy" case"""
-    from qats import TsDB
+    from qats import TimeSeries, TsDB
     F = []
     how = inp["how"]
     ts = build_series(inp["series"])
+    nm = inp["series"].get("name", "s")
     db = None
     if how.startswith("TsDB"):
         db = TsDB()
         db.add(ts)
-        ts = db.get(name=inp["series"].get("name", "s"))
+        ts = db.get(name=nm)
     run_history(ts, inp["history"], F)
+    nm = ts.name                    # (the history may have renamed the series object; the database key stays)
+    key = None if db is None else db.register_keys[0]
+    newname = False
     if how == "copy()":
         c = ts.copy()
     elif how == "copy.copy":
         c = pycopy.copy(ts)
     elif how == "copy(newname)":
-        c = ts.copy(newname="other")
+        c, newname = ts.copy(newname="other"), True
+    elif how == "copy('other')":
+        c, newname = ts.copy("other"), True
+    elif how == "copy.deepcopy":
+        c = pycopy.deepcopy(ts)
+    elif how == "copy().copy()":
+        first = ts.copy()
+        c = first.copy()
+        mutate_and_watch(c, first, [], "")          # the intermediate copy is then modified: neither end may notice
+    elif how == "constructor":      # the arrays of a series handed to the constructor
+        c = TimeSeries(ts.name, ts.t, ts.x, parent=ts.parent, dtg_ref=ts.dtg_ref, kind=pycopy.copy(ts.kind), unit=pycopy.copy(ts.unit))
     elif how == "TsDB.copy":
-        c = db.copy().get(name=ts.name)
+        c = db.copy().register[key]
     elif how == "TsDB.update":
         u = TsDB()
         u.update(db)
-        c = u.get(name=ts.name)
+        c = u.register[key]
+    elif how == "TsDB.copy(names=str)":
+        c = db.copy(names=inp["series"].get("name", "s")).register[key]
+    elif how == "TsDB.copy([name], False)":
+        c = db.copy([inp["series"].get("name", "s")], False).register[key]
+    elif how == "TsDB.update(names=[name])":
+        u = TsDB()
+        u.add(TimeSeries("zz_already_there", np.arange(3.), np.arange(3.)))
+        u.update(db, names=[inp["series"].get("name", "s")])
+        c = u.register[key]
+    elif how == "TsDB.copy().copy()":
+        c = db.copy().copy().register[key]
     else:
         raise ValueError(how)
-    compare_series(ts, c, F, "", newname=(how == "copy(newname)"))
-    mutate_and_watch(ts, c, F, "")
+    compare_series(ts, c, F, "", newname=newname)
+    if inp.get("twice"):            # a second copy of the same source: equal to it as well, independent of the first copy
+        c2 = pycopy.copy(ts) if how == "copy.copy" else ts.copy()
+        compare_series(ts, c2, F, " [second copy]", queries=False)
+        if c2 is not c and (np.shares_memory(c2.t, c.t) or np.shares_memory(c2.x, c.x)):
+            F.append(("a copy shares no mutable state with its source [two copies of one source]", "independent arrays", "shared memory"))
+        mutate_and_watch(ts, c, F, "")
+        compare_series(ts, c2, F, " [second copy, after the first was modified]", queries=False)
+    else:
+        mutate_and_watch(ts, c, F, "")
+    if inp.get("reverse") and c is not ts:      # ... and the other way round: what is done to the source does not reach a copy
+        c3 = ts.copy()
+        mutate_and_watch(c3, ts, F, " [the source is modified, the copy watched]")
     return F
 
 
@@ -586,6 +1125,8 @@ def build_db(inp, root):
             src.add(TimeSeries(nm, t, np.sin(r.uniform(0.1, 0.5) * t) + r.uniform(1., 5.) + np.array([r.uniform(-.1, .1) for _ in range(n)])))
         path = os.path.join(root, "f%d%s" % (i, f["fmt"]))
         quiet(src.export, path, names="*")
+        if inp.get("rel"):          # the files are named relative to the working directory (which is `root` during the case)
+            path = os.path.basename(path) if inp["rel"] == "bare" else os.path.join(".", os.path.basename(path))
         paths.append(path)
         for nm in f["names"]:
             where[nm] = path
@@ -607,9 +1148,13 @@ def key_of(db, nm):
 def check_db_case(inp):
     """-> list of failing clauses for a kind="db" case"""
     root = tempfile.mkdtemp(prefix="qv10_")
+    cwd = os.getcwd()
     try:
+        if inp.get("rel"):
+            os.chdir(root)
         return _check_db_case(inp, root)
     finally:
+        os.chdir(cwd)
         shutil.rmtree(root, ignore_errors=True)
 
 
@@ -621,15 +1166,38 @@ def _check_db_case(inp, root):
         quiet(db.get, name=nm)
     for nm, ops in inp["history"].items():
         run_history(quiet(db.get, name=nm), ops, F, " (series %s)" % nm)
+    changed = list(inp.get("mutate", []))
+    for nm in list(changed):              # the user changes series held by the database (in place, and by assignment)
+        s_ = quiet(db.get, name=nm)
+        s_.x[0] += 1.
+        s_.x *= 3.
+        s_.kind, s_.unit = "changed-before", "cb"
+    changed += [nm for nm, ops in inp["history"].items() if any(op.startswith("!") for op in ops)]
     unread = [nm for nm in where if db.register[key_of(db, nm)] is None]
     shallow, select = inp["shallow"], inp["select"]
     expected_keys = list(db.register_keys) if select is None else [key_of(db, nm) for nm in select]
     keys0 = list(db.register_keys)
+    sel = select
+    if select is not None:
+        how_sel = inp.get("select_as", "list")
+        sel = tuple(select) if how_sel == "tuple" else select[0] if (how_sel == "str" and len(select) == 1) else list(select)
     if inp["how"] == "copy":
-        other = quiet(db.copy, names=select, shallow=shallow)
+        other = quiet(db.copy, sel, shallow) if inp.get("positional") else quiet(db.copy, names=sel, shallow=shallow)
     else:
         other = TsDB()
-        quiet(other.update, db, names=select, shallow=shallow)
+        if inp.get("positional"):
+            quiet(other.update, db, sel, shallow)
+        else:
+            quiet(other.update, db, names=sel, shallow=shallow)
+    if inp.get("gen2"):             # the copy is copied again (the first copy is then changed)
+        first = other
+        other = quiet(first.copy, shallow=shallow)
+        if not shallow:
+            for k in list(first.register):
+                if first.register[k] is not None:
+                    first.register[k].x *= 0.
+            first.register.clear()
+            del first.register_keys[:]
     word = "shallow" if shallow else "deep"
     if sorted(other.register_keys) != sorted(expected_keys) or sorted(other.register.keys()) != sorted(expected_keys) or \
             (select is None and list(other.register_keys) != expected_keys):
@@ -641,6 +1209,7 @@ def _check_db_case(inp, root):
         if getattr(other, cont) is getattr(db, cont):
             F.append(("a %s database copy or update shares %s with its source" % (word, "exactly the series objects" if shallow else "no mutable state"),
                       "distinct containers", "the container `%s` is shared" % cont))
+    pairs = []
     for k in expected_keys:
         nm = k.replace("\\", "/").split("/")[-1]
         tag = " [series %s, %s when copied]" % (nm, "in memory" if where[nm] is None else ("not yet read" if nm in unread else "preloaded"))
@@ -656,9 +1225,22 @@ def _check_db_case(inp, root):
             F.append(("a deep database copy shares no mutable state with its source" + tag, "independent series objects",
                       "source.get(%r) is copy.get(%r)" % (nm, nm)))
             continue
+        pairs.append((nm, a, b))
+    # a deep copy shares no array with the source - neither with the series of the same name nor with any other one; the series of
+    # one database do not share arrays among themselves either (each has its own: the constructor copies)
+    objs = [("source." + nm, a) for nm, a, _ in pairs] + [("copy." + nm, b) for nm, _, b in pairs]
+    for i, (na, a) in enumerate(objs):
+        for nb, b in objs[i + 1:]:
+            if a is not b and any(np.shares_memory(p, q) for p in (a._t, a.x) for q in (b._t, b.x)):
+                if na.split(".")[0] != nb.split(".")[0]:
+                    F.append(("a deep database copy shares no mutable state with its source", "no shared memory", "%s and %s share an array" % (na, nb)))
+                else:
+                    F.append((OWN_ORACLE, "no shared memory", "%s and %s share an array" % (na, nb)))
+    for nm, a, b in pairs:
+        tag = " [series %s, %s when copied]" % (nm, "in memory" if where[nm] is None else ("not yet read" if nm in unread else "preloaded"))
         compare_series(a, b, F, tag)
         mutate_and_watch(a, b, F, tag)
-        if where[nm] is not None:
+        if where[nm] is not None and nm not in changed:
             fresh = quiet(lambda: TsDB.fromfile(where[nm]).get(name=nm))
             if not (same(fresh.t, a.t) and same(fresh.x, a.x)):
                 F.append(("a deep database copy shares no mutable state with its source (after modifying the copy the source still "
@@ -672,6 +1254,84 @@ def _check_db_case(inp, root):
     return F
 
 
+# ======================================================================================================================
+#  the computations behind the GUI, sequentially and in real threads
+# ======================================================================================================================
+# (time window, filter arguments, nperseg, normalize, nbins, minima) as the GUI's settings may give them
+GUI_CONFIGS = [dict(twin=(50.0, 700.0), fargs=("lp", 0.3), nperseg=256, normalize=False, nbins=32, minima=False),
+               dict(twin=None, fargs=None, nperseg=100000, normalize=True, nbins=None, minima=True),
+               dict(twin=(0, 1e12), fargs=["hp", 0.05], nperseg=64, normalize=False, nbins=8, minima=False)]
+
+
+def check_gui_case(inp):
+    """kind="gui": the computations of qats.app.funcs on one container of series: twice in a row, then together in threads"""
+    from qats.app import funcs
+    F = []
+    cf = GUI_CONFIGS[inp["config"]]
+    series = {"a": make_series(random.Random(inp["seeds"][0]), True, n=2000), "b": make_series(random.Random(inp["seeds"][1]), False, n=1500)}
+    befores = {k: snap(v) for k, v in series.items()}           # before anything is computed
+    twin, fargs = cf["twin"], cf["fargs"]
+    jobs = [("psd", lambda: funcs.calculate_psd(series, twin, fargs, cf["nperseg"], cf["normalize"])),
+            ("rfc", lambda: funcs.calculate_rfc(series, twin, fargs, cf["nbins"])),
+            ("trace", lambda: funcs.calculate_trace(series, twin, fargs)),
+            ("stats", lambda: funcs.calculate_stats(series, twin, fargs, cf["minima"])),
+            ("gumbel", lambda: funcs.calculate_gumbel_fit(series, twin, fargs, cf["minima"]))]
+    fargs0 = pycopy.deepcopy(fargs)
+
+    def unchanged(when):
+        bad = [k for k, v in series.items() if snap(v) != befores[k]]
+        if bad:
+            F.append(("the GUI computations leave the shared series unchanged", "unchanged", "series %s changed %s" % (bad, when)))
+        return not bad
+    seq = {}
+    for nm, f in jobs:          # first use of the series objects, looked at while the computation runs
+        ob = Observer(series.values())
+        try:
+            with ob:
+                seq[nm] = f()
+        except Exception as e:
+            F.append(("the GUI computations run on the series without error", "no error", "%s: %r" % (nm, e)))
+        if ob.seen:
+            F.append((OBS_ORACLE, "unchanged during the computation `%s`" % nm, ob.seen))
+        if not unchanged("by the computation `%s`" % nm):
+            return F
+    for nm, f in jobs:          # second use
+        if nm in seq:
+            try:
+                if not same(f(), seq[nm]):
+                    F.append(("a repeated GUI computation gives the same answer", "equal", "`%s` differs the second time" % nm))
+            except Exception as e:
+                F.append(("a repeated GUI computation gives the same answer", "equal", "%s: %r" % (nm, e)))
+    if fargs != fargs0:
+        F.append(("the GUI computations do not modify their arguments", fargs0, fargs))
+    if not unchanged("by the second run") or F:
+        return F
+    for r in range(inp["rounds"]):
+        out, errs = {}, []
+
+        def work(nm, f):
+            try:
+                out[nm] = f()
+            except Exception as e:
+                errs.append((nm, repr(e)))
+        order = jobs[:]
+        random.Random(inp["seeds"][0] + r).shuffle(order)
+        th = [threading.Thread(target=work, args=j) for j in order]
+        for t_ in th:
+            t_.start()
+        for t_ in th:
+            t_.join()
+        if errs:
+            F.append(("the four GUI computations run concurrently on the same series without error", "no error", "round %d: %s" % (r, errs)))
+        for nm in seq:
+            if nm in out and not same(out[nm], seq[nm]):
+                F.append(("concurrent and sequential execution of the GUI computations give the same answer", "equal",
+                          "round %d: `%s` differs" % (r, nm)))
+        if not unchanged("in round %d of the threads" % r) or F:
+            break
+    return F
+
+
 def check_case(inp):
     """evaluate a copy / db case; an exception raised by the implementation is a failing clause"""
     try:
@@ -681,12 +1341,23 @@ def check_case(inp):
             return check_db_case(inp)
         if inp["kind"] == "query":
             return check_query_case(inp)
+        if inp["kind"] == "gui":
+            return check_gui_case(inp)
         raise ValueError(inp["kind"])
     except Exception as e:
         tb = traceback.extract_tb(e.__traceback__)
         loc = ["%s:%d %s" % (os.path.basename(fr.filename), fr.lineno, fr.name) for fr in tb[-3:]]
         return [("evaluating the case (queries / copying and comparing a series or database) completes without an exception", "no exception",
                  dict(exception=repr(e)[:300], where=loc))]
+
+
+def noted(inp):
+    """a failing case is evaluated once more; one that does not fail again depends on what ran before in the same process (state kept
+    outside the objects of the case) and says so - replaying it alone will not reproduce it"""
+    if "note" in inp or check_case(inp):
+        return inp
+    inp["note"] = "did not fail when evaluated again on its own: depends on what was run before in the same process (re-run the check)"
+    return inp
 
 
 def gen_copy_cases(rng, quick):
@@ -705,6 +1376,31 @@ def gen_copy_cases(rng, quick):
                     sid += 1
                     cases.append(dict(kind="copy", series=dict(name="s", grid=g, dtg=d, n=rng.choice([12, 40, 75]), seed=sid),
                                       history=h, how=how))
+    # ---- the other ways of copying, sources built from other kinds of arrays / attribute values / magnitudes / lengths, sources that
+    #      were changed (in place, re-assigned, re-referenced, renamed) before the copy is taken, second copies
+    for how in HOWS + HOWS2:
+        for j in range(3 if quick else 20):
+            sid += 1
+            sp = dict(name=rng.choice(["s", "S", "s [kN]", "a.b/c"]) if j else "s", grid=rng.choice(GRIDS), dtg=rng.choice(DTGS),
+                      n=rng.choice([1, 2, 3, 12, 40]) if j != 1 else rng.choice([1, 2, 3]), seed=sid)
+            if rng.random() < 0.7:
+                sp["tkind"] = rng.choice(TKINDS)
+            if rng.random() < 0.7:
+                sp["xkind"] = rng.choice(TKINDS[:-1])
+            if rng.random() < 0.6:
+                sp["attrs"] = rng.choice(ATTRS)
+            if rng.random() < 0.4:
+                sp["xpow"] = rng.choice([-200, 200])
+            if rng.random() < 0.3:
+                sp["xoff"] = rng.choice([2. ** 40, -1e15])
+            if rng.random() < 0.3:
+                sp["toff"] = rng.choice([2. ** 30, -1000.])
+            if "/" in sp["name"] and how.startswith("TsDB"):
+                sp["name"] = "s [kN]"
+            h = []
+            for _ in range(rng.randint(0, 5)):
+                h.append(rng.choice(HIST_MUT) if rng.random() < 0.45 else rng.choice(HIST_OPS))
+            cases.append(dict(kind="copy", series=sp, history=h, how=how, twice=rng.random() < 0.5, reverse=rng.random() < 0.5))
     return cases
 
 
@@ -716,6 +1412,8 @@ def gen_db_cases(rng, quick):
         files, names = [], []
         for f in range(nfiles):
             nms = ["%s%d" % ("ab"[f], j) for j in range(rng.randint(1, 4))]
+            if i >= 8 and rng.random() < 0.4:       # names that differ only in letter case (how names select is the matter of C09)
+                nms += rng.sample(["%s0" % "AB"[f], "%s1" % "AB"[f], "%s0_" % "ab"[f]], rng.randint(1, 3))
             files.append(dict(fmt=FORMATS[(i + f) % 4] if i < 8 else rng.choice(FORMATS), names=nms, grid=rng.choice(["half", "third"]),
                               n=rng.choice([8, 30])))
             names += nms
@@ -738,14 +1436,25 @@ def gen_db_cases(rng, quick):
         select = None
         if rng.random() < 0.4:
             select = rng.sample(allnames, rng.randint(1, len(allnames)))
-        cases.append(dict(kind="db", seed=i + 1, files=files, mem=mem, preload=pre, history=hist, select=select,
-                          how=("copy", "update")[(i // 4) % 2] if i < 8 else rng.choice(["copy", "update"]),
-                          shallow=bool(i % 2) if i >= 8 else False if i < 6 else True))
+        case = dict(kind="db", seed=i + 1, files=files, mem=mem, preload=pre, history=hist, select=select,
+                    how=("copy", "update")[(i // 4) % 2] if i < 8 else rng.choice(["copy", "update"]),
+                    shallow=bool(i % 2) if i >= 8 else False if i < 6 else True)
+        if i >= 8:      # series changed in memory before the copy, other spellings of the call, relative file names, copies of copies
+            case["mutate"] = [nm for nm in allnames if (nm in pre or nm.startswith("m")) and rng.random() < 0.3]
+            for nm in hist:
+                if rng.random() < 0.3:
+                    hist[nm].insert(rng.randrange(len(hist[nm]) + 1), rng.choice(HIST_MUT[:4]))
+            if select is not None:
+                case["select_as"] = rng.choice(["list", "tuple", "str"])
+            case["positional"] = rng.random() < 0.3
+            if files and rng.random() < 0.3:
+                case["rel"] = rng.choice(["bare", "dot"])
+            case["gen2"] = rng.random() < 0.25
+        cases.append(case)
     return cases
 
 
 def run(chk):
-    from qats.app import funcs
     chk.extra["rule"] = RULE
     chk.assumptions += ["aliasing is observed with np.shares_memory and object identity; the Lean step programs mirror TimeSeries.get / minima"]
     chk.partial += ["the ownership theorems are about the step model; CPython/numpy aliasing itself is observed, not proved"]
@@ -786,19 +1495,25 @@ def run(chk):
         chk.dist("method:" + m)
         before = snap(ts)
         arr0 = None if arr is None else arr.copy()
+        ob = Observer([ts])
         try:
             mid = None
-            r1 = call(ts, m, kw)
+            with ob:
+                r1 = call(ts, m, kw)
             mid = snap(ts)
             r2 = call(ts, m, kw)
         except Exception as e:
             chk.dist("raised:" + type(e).__name__)
             after = snap(ts)
+            if ob.seen:
+                chk.fail(OBS_ORACLE, inp, "unchanged during the call", ob.seen)
             if after != before:
                 chk.fail("a query leaves the stored time, data and attributes bit-for-bit unchanged (also when it raises)", inp,
                          "unchanged", "changed after " + type(e).__name__)
             continue
         after = snap(ts)
+        if ob.seen:
+            chk.fail(OBS_ORACLE, inp, "unchanged during the call", ob.seen)
         if mid != before:           # after the first call (two in-place sign flips would cancel)
             chk.fail("a query leaves the stored time, data and attributes bit-for-bit unchanged", inp, "unchanged", what_changed(before, mid))
         elif after != before:
@@ -818,6 +1533,9 @@ def run(chk):
                 chk.fail("returned arrays do not alias the stored ones", inp, "no shared memory", "shares memory with stored array")
                 break
         # model tags
+        if not o.startswith("ok"):
+            chk.disagree("own." + m, inp, o, "the model gives no prediction")
+            continue
         tags = dict(kv.split("=") for kv in o.split()[1:])
         if m in ("get", "minima"):
             pred_arg = tags["t"] == "arg"
@@ -852,50 +1570,26 @@ def run(chk):
             if fb:
                 chk.nontriv(repr(inp))
         for oracle, expected, observed in check_case(inp):
+            chk.fail(oracle, noted(inp), expected, observed)
+    # ---- the GUI computations concurrently on the same series ----------------------------------------------------------------------
+    for inp in [c for c in core.load_corpus("C10") if c.get("kind") == "gui"]:
+        chk.count("threads", inp["rounds"])
+        for oracle, expected, observed in check_case(inp):
             chk.fail(oracle, inp, expected, observed)
-    # ---- the four GUI computations concurrently on the same series ------------------------------------------------------------------
-    rounds = 6 if chk.quick else 200
-    series = {"a": make_series(rng, True, n=2000), "b": make_series(rng, False, n=1500)}
-    twin, fargs = (50.0, 700.0), ("lp", 0.3)
-    jobs = [("psd", lambda: funcs.calculate_psd(series, twin, fargs, 256, False)),
-            ("rfc", lambda: funcs.calculate_rfc(series, twin, fargs, 32)),
-            ("trace", lambda: funcs.calculate_trace(series, twin, fargs)),
-            ("stats", lambda: funcs.calculate_stats(series, twin, fargs, False))]
-    seq = {nm: f() for nm, f in jobs}
-    befores = {k: snap(v) for k, v in series.items()}
-    for r in range(rounds):
-        out, errs = {}, []
-
-        def work(nm, f):
-            try:
-                out[nm] = f()
-            except Exception as e:
-                errs.append((nm, repr(e)))
-        order = jobs[:]
-        rng.shuffle(order)
-        th = [threading.Thread(target=work, args=j) for j in order]
-        for t_ in th:
-            t_.start()
-        for t_ in th:
-            t_.join()
-        chk.count("threads")
-        chk.nontriv(("threads", r))
-        if errs:
-            chk.fail("the four GUI computations run concurrently on the same series without error", dict(round=r), "no error", errs)
-        for nm in seq:
-            if nm in out and not same(out[nm], seq[nm]):
-                chk.fail("concurrent and sequential execution of the GUI computations give the same answer", dict(round=r, computation=nm),
-                         "equal", "different")
-        for k, v in series.items():
-            if snap(v) != befores[k]:
-                chk.fail("the GUI computations leave the shared series unchanged", dict(round=r, series=k), "unchanged", "changed")
+    for ci in range(len(GUI_CONFIGS)):
+        inp = dict(kind="gui", seeds=[rng.randrange(10 ** 6), rng.randrange(10 ** 6)], config=ci, rounds=(3 if chk.quick else 70) if ci else (6 if chk.quick else 200))
+        chk.count("threads", inp["rounds"])
+        chk.nontriv(("threads", ci))
+        chk.dist("gui-config:%d" % ci)
+        for oracle, expected, observed in check_case(inp):
+            chk.fail(oracle, noted(inp), expected, observed)
     chk.sample(dict(method="minima", options="twin + resample step + taper + lp + smooth", model=outs[1] if outs else ""))
 
 
 def replay(rp):
     import random
     inp = rp["input"]
-    if inp.get("kind") in ("copy", "db", "query"):
+    if inp.get("kind") in ("copy", "db", "query", "gui"):
         F = check_case(inp)
         for oracle, expected, observed in F:
             print("FAILS: %s\n       expected %s, observed %s" % (oracle, expected, observed))
@@ -919,8 +1613,13 @@ def replay(rp):
     if inp["smooth"]:
         kw["window_len"] = 5
     before = snap(ts)
-    r = call(ts, inp["method"], kw)
+    ob = Observer([ts])
+    with ob:
+        r = call(ts, inp["method"], kw)
     bad = 0
+    if ob.seen:
+        print("FAILS: %s\n       observed: %s" % (OBS_ORACLE, ob.seen))
+        bad += 1
     if snap(ts) != before:
         print("FAILS: stored arrays / attributes changed")
         bad += 1
